@@ -61,6 +61,15 @@ def instances(tier, seed):
         add(kind='signal', order=2, method=method, N=2, grid=fam.G_UNI, T=('num', Fr(2)), refine=2, der=True)
         add(kind='signal', order=2, method=method, N=3, grid=fam.G_GEO_LOC, T=('free', Fr(3, 2)), refine=None)
         add(kind='signal', order=1, method=method, N=2, grid=fam.G_UNI, T=('num', Fr(2)), refine=None, der=True)
+        # the stage that is solved was created from a template carrying the signal (and its derivative)
+        add(kind='signal', order=2, method=method, N=2, grid=fam.G_UNI, T=('num', Fr(2)), refine=2, der=True, clone=True)
+        # coefficients through the 'gist' grid and a guess for the signal under the shooting/collocation methods
+        add(kind='signal', order=2, method=method, N=3, grid=fam.G_GEO_LOC, T=('free', Fr(3, 2)), refine=2, gist=True)
+        # sampled at the collocation points; constrained at every integrator point
+        if method == 'DC':
+            add(kind='signal', order=2, method='DC', N=2, M=2, grid=fam.G_UNI, T=('num', Fr(2)), refine=None, der=True, sgrid='integrator_roots')
+            add(kind='signal', order=3, method='DC', N=3, M=1, grid=fam.G_GEO_LOC, T=('free', Fr(3, 2)), refine=None, der=True, sgrid='integrator_roots')
+        add(kind='signal', order=2, method=method, N=2, M=2, grid=fam.G_UNI, T=('num', Fr(2)), refine=None, der=True, intg_con=True)
         # several integrator steps per control interval: the derivative signal is evaluated in the control interval the step belongs to
         add(kind='signal', order=2, method=method, N=2, M=2, grid=fam.G_UNI, T=('num', Fr(2)), refine=None, der=True)
         add(kind='signal', order=3, method=method, N=3, M=[3, 2][method == 'DC'], grid=fam.G_GEO_LOC, T=('free', Fr(3, 2)), refine=2, der=True)
@@ -224,7 +233,12 @@ def run_signal(item):
     nb = N + order if order > 0 else N
     try:
         with quiet():
-            ocp = Ocp(t0=float(t0v), T=FreeTime(float(Tk[1])) if Tk[0] == 'free' else float(Tk[1]))
+            if item.get('clone'):
+                # declared on a template stage; the problem solved is a stage created FROM that template (signals travel with the clone)
+                from rockit import Stage
+                ocp = Stage(t0=float(t0v), T=FreeTime(float(Tk[1])) if Tk[0] == 'free' else float(Tk[1]))
+            else:
+                ocp = Ocp(t0=float(t0v), T=FreeTime(float(Tk[1])) if Tk[0] == 'free' else float(Tk[1]))
             sig = ocp.variable(grid='bspline', order=order)
             want_der = order >= 1 and (method == 'SM' or item.get('der'))
             dsig = ocp.der(sig) if want_der else None
@@ -244,8 +258,19 @@ def run_signal(item):
                 ocp.subject_to(ocp.at_t0(x) == 0)
                 if dsig is not None:
                     ocp.subject_to(dsig <= 2)
+                if item.get('intg_con'):
+                    # path constraints on the signal (and its derivative) imposed at every integrator point
+                    ocp.subject_to(sig <= 0.8125, grid='integrator')
+                    if dsig is not None:
+                        ocp.subject_to(dsig >= -3.25, grid='integrator')
+                if item.get('gist'):
+                    ocp.set_initial(sig, 0.3125)
                 ocp.method(MultipleShooting(N=N, M=item.get('M', 1), grid=grid) if method == 'MS' else DirectCollocation(N=N, M=item.get('M', 1), grid=grid, degree=2))
-            ocp.solver('ipopt')
+            master = ocp
+            if item.get('clone'):
+                master = Ocp()
+                ocp = master.stage(ocp)
+            master.solver('ipopt')
             if method == 'SM':
                 ts, ss = ocp.sample(sig, grid='control', refine=refine)
                 tg, cg = ocp.sample(sig, grid='gist')
@@ -257,11 +282,24 @@ def run_signal(item):
                     outs += [ocp.sample(d2sig, grid='control', refine=refine)[1]]
             else:
                 rkw = {'refine': refine} if refine else {}       # refine=None: the plain integrator grid
-                ts, ss = ocp.sample(sig, grid='integrator', **rkw)
+                sgrid = item.get('sgrid', 'integrator')          # 'integrator_roots': the collocation points (DirectCollocation)
+                ts, ss = ocp.sample(sig, grid=sgrid, **rkw)
                 outs = [ts, ss, ocp.value(ocp.T)]
                 if dsig is not None:
-                    outs += [ocp.sample(dsig, grid='integrator', **rkw)[1]]
-            prog, zin, out = _trace(ocp, outs, ctx)
+                    outs += [ocp.sample(dsig, grid=sgrid, **rkw)[1]]
+                else:
+                    outs += [ca.MX(0, 1)]
+                if item.get('gist'):
+                    # the coefficients and their Greville times through the 'gist' grid; a constant guess given BEFORE the transcription
+                    tg, cg = ocp.sample(sig, grid='gist')
+                    outs += [tg, cg]
+                    opti_ = master._method.opti
+                    gist_start = [float(v) for v in np.array(opti_.debug.value(cg, opti_.initial())).flatten()]
+                if item.get('intg_con'):
+                    outs += [master._method.opti.g]
+                    opti_ = master._method.opti
+                    bnds_num = (np.array(opti_.debug.value(opti_.ubg, opti_.initial())).flatten(), np.array(opti_.debug.value(opti_.lbg, opti_.initial())).flatten())
+            prog, zin, out = _trace(master, outs, ctx)
     except Unsupported:
         raise
     except Exception as e:
@@ -295,6 +333,18 @@ def run_signal(item):
                     cv[str(e)] = e
                 st.extend(e.children())
         coeff = [v for v in flat if str(v) in cv]
+        if item.get('gist'):
+            cz = out[5]
+            if len(cz) != N + order or not all(_isvar(z3, c) for c in cz) or {str(c) for c in cz} != {str(c) for c in coeff}:
+                ctx.viol.append({'property': PROP, 'key': key + '|gist', 'label': 'gist', 'detail': "sample(sig,'gist') should be the N+order=%d coefficient variables the samples depend on, got %s" % (N + order, [str(c)[:30] for c in cz])})
+                return ctx.result('signal', {'kind': 'signal'})
+            coeff = list(cz)         # the value proofs below use the coefficients in the order the gist grid reports them
+            for i, g_ in enumerate(rb.greville(xi, order)):
+                ctx.prove('gist time[%d] == t0+T*greville' % i, out[4][i], ctx.rdom.const(t0v) + rT * ctx.rdom.const(g_), key + '|greville')
+            if all(abs(v - 0.3125) < 1e-12 for v in gist_start):
+                ctx.proved.append('constant guess reaches every coefficient (ground)')
+            else:
+                ctx.viol.append({'property': PROP, 'key': key + '|guess', 'label': 'set_initial(sig, 0.3125)', 'detail': 'coefficients start at %s' % gist_start})
         if len(coeff) != N + order:
             ctx.viol.append({'property': PROP, 'key': key + '|coeff-count', 'label': 'coefficients', 'detail': 'sampled bspline signal of order %d on N=%d depends on %d NLP variables, expected N+order=%d' % (order, N, len(coeff), N + order)})
             return ctx.result('signal order=%d %s' % (order, method), {'kind': 'signal'})
@@ -307,7 +357,8 @@ def run_signal(item):
     fo = prog.run(ctx.fdom, fin)
     Tf = fo[2][0]
     pos = [Fr((tv - float(t0v)) / Tf).limit_denominator(10 ** 5) for tv in fo[0]]
-    if pos[0] != 0 or pos[-1] != 1 or any(pos[j + 1] <= pos[j] for j in range(len(pos) - 1)):
+    roots_ = method != 'SM' and item.get('sgrid') == 'integrator_roots'
+    if (not roots_ and (pos[0] != 0 or pos[-1] != 1)) or any(pos[j + 1] <= pos[j] for j in range(len(pos) - 1)) or pos[0] < 0 or pos[-1] > 1:
         ctx.viol.append({'property': PROP, 'key': key + '|time-range', 'label': 'times', 'detail': 'reported sample times are not an increasing sequence from t0 to t0+T: normalised %s' % [str(p_) for p_ in pos]})
     for j in range(npts):
         xj = pos[j]
@@ -326,6 +377,29 @@ def run_signal(item):
                 refd2 = rb.derivative_coeffs(refd, xi, order - 1, ctx.rdom)
                 rv2 = rb.spline_value(refd2, xi, order - 2, span, ctx.rdom.const(xj), ctx.rdom)
                 ctx.prove('T^2*sample(der(der(sig)))[%d]' % j, out[7][j] * Tz * Tz, rv2, key + '|second-derivative')
+    if method != 'SM' and item.get('intg_con'):
+        # every integrator point carries a row  sig <= 0.8125  (and  der(sig) >= -3.25): body = the spline value at that point
+        gz, ubz, lbz = out[4], bnds_num[0], bnds_num[1]
+        for nm, vals_, bnd, which in (('sig<=0.8125', ssz, 0.8125, ubz), ('der(sig)>=-3.25', out[3] if dsig is not None else None, -3.25, lbz)):
+            if vals_ is None:
+                continue
+            for j in range(npts):
+                hit = False
+                for r_ in range(len(gz)):
+                    if not abs(float(which[r_]) - bnd) < 1e-9:
+                        continue
+                    ctx.s.push()
+                    ctx.s.add(z3.simplify(gz[r_] - vals_[j]) != 0)
+                    rr_ = str(ctx.s.check())
+                    ctx.s.pop()
+                    if rr_ == 'unsat':
+                        hit = True
+                        break
+                if hit:
+                    ctx.proved.append('row %s at integrator point %d' % (nm, j))
+                else:
+                    ctx.viol.append({'property': PROP, 'key': key + '|integrator-constraint', 'label': '%s @ point %d' % (nm, j),
+                                     'detail': "no NLP row imposes %s at integrator point %d (grid='integrator' path constraint on a bspline signal)" % (nm, j)})
     if order >= 1 and npts > 2:
         # twin (vacuity): the reference spline with the coefficient order reversed must be told apart
         rtw = 'unsat'
